@@ -39,6 +39,10 @@ def cleanup_scratch():
         pass
 
 
+def _ns_probe(_):
+    return bool(_sb is not None and getattr(_sb, "private", False))
+
+
 def _exec_task(task):
     fn, scn = task
     return fn(scn, _sb)
@@ -55,6 +59,12 @@ class Explorer:
         self.seed = common.base_seed()
         self.report = common.Report(prop, tier, level, self.seed)
         self.pool = common.Pool(initfn=_init_worker)
+        # can the workers see their sandboxes at one fixed path (private mount namespace)?  If not, event logs
+        # of one scenario differ between workers in the hash-directory names derived from absolute include paths,
+        # and the replay gate compares violation classes only
+        self.ns_ok = self.pool.map(_ns_probe, [0])[0]
+        if not self.ns_ok:
+            common.say("[%s] private mount namespaces unavailable: per-worker sandbox paths, replay gate compares classes only" % prop)
         self.raw_seen = {}
         self.fault_counts = {}
         self.probes = {}
@@ -114,6 +124,11 @@ class Explorer:
 
     def handle_violation(self, scn, out):
         raw = self.signature(scn, out)
+        if raw in self.report.known:
+            # already classified as a recorded finding by the same signature function: no need to minimise again
+            self.report.known_seen[raw] = self.report.known[raw]
+            self.raw_seen[raw] = self.raw_seen.get(raw, 0) + 1
+            return
         if raw in self.raw_seen:
             self.raw_seen[raw] += 1
             return
@@ -134,7 +149,7 @@ class Explorer:
         b = self.run1(mscn)
         ca = [v[0] for v in a.get("violations", [])]
         cb = [v[0] for v in b.get("violations", [])]
-        if cls not in ca or cls not in cb or a.get("log_hash") != b.get("log_hash"):
+        if cls not in ca or cls not in cb or (self.ns_ok and a.get("log_hash") != b.get("log_hash")):
             self.report.engine_errors.append(
                 "replay of minimised scenario did not reproduce %s deterministically (%s/%s, %s/%s): %s" %
                 (cls, ca, cb, a.get("log_hash"), b.get("log_hash"), json.dumps(mscn)[:1500]))
@@ -158,6 +173,7 @@ class Explorer:
             "inconclusive_runs": self.inconclusive,
             "seeds_per_hour": round(r.evaluations / wall * 3600.0, 1),
             "raw_violation_signatures": self.raw_seen,
+            "sandbox_at_fixed_path_via_private_mount_namespace": bool(self.ns_ok),
             "components": {
                 "real": ["libocca (built from /repo working tree, -DLIBOCCA_OCCA_VERIF)", "occa_builder driver over the public API",
                          "/bin/sh", "Linux file system (tmpfs) semantics", "g++ output (memoised)",
